@@ -214,16 +214,13 @@ def handleConnectionRequest (a : AEAD) (s : NetcodeServer) (addr : Addr) (versio
                           (some (s.globalSequence, connectToken.serverToClientKey)))
       let g ← incU64 s.globalSequence "server.rs handle_connection_request: global_sequence += 1"
       let s := { s with globalSequence := g }
-      -- `entry(addr).or_insert_with(..)`: an existing pending connection keeps its id, keys and user data
-      let pending := match pendingFind s.pendingClients addr with
-        | some p => p
-        | none =>
-          { confirmed := false, sequence := 0, clientId := connectToken.clientId
-            lastPacketReceivedTime := s.currentTime, lastPacketSendTime := s.currentTime, addr
-            state := .pendingResponse, sendKey := connectToken.serverToClientKey
-            receiveKey := connectToken.clientToServerKey, timeoutSeconds := connectToken.timeoutSeconds
-            expireTimestamp, userData := connectToken.userData, replayProtection := RP.new }
-      let pending := { pending with lastPacketReceivedTime := s.currentTime, lastPacketSendTime := s.currentTime }
+      -- `pending_clients.insert(addr, ..)`: a request always (re)starts the handshake of its address
+      let pending : Connection :=
+        { confirmed := false, sequence := 0, clientId := connectToken.clientId
+          lastPacketReceivedTime := s.currentTime, lastPacketSendTime := s.currentTime, addr
+          state := .pendingResponse, sendKey := connectToken.serverToClientKey
+          receiveKey := connectToken.clientToServerKey, timeoutSeconds := connectToken.timeoutSeconds
+          expireTimestamp, userData := connectToken.userData, replayProtection := RP.new }
       pure (.packetToSend addr out, { s with pendingClients := pendingSet s.pendingClients addr pending })
 
 /-- `generate_payload_packet` -/
